@@ -277,7 +277,12 @@ class Runner(object):
             link.cur.track = False      # after an error the host may be out of frame sync: over-request tracking is meaningless
         conn = link.used.index(link.cur) if link.cur in link.used else len(link.used) - 1
         inoff = link.used[conn].in_off if 0 <= conn < len(link.used) else 0
-        return dict(conn=conn, inoff=inoff, res=res, peer=hx(peer), avail=int(bool(d.available)), maxdata=d._maxdata, lid=d._local_id,
+        flat = []
+        for a1, inner in d._io_manager._packet_store._dict.items():
+            for a0, q in inner.items():
+                flat.append((a1, a0, ",".join("%s:%s" % (c.decode(), hx(dd)) for c, dd in list(q._queue))))
+        store_s = "{" + ";".join("%d/%d=[%s]" % (a0, a1, items) for a1, a0, items in sorted(flat)) + "}"
+        return dict(conn=conn, inoff=inoff, store=store_s, res=res, peer=hx(peer), avail=int(bool(d.available)), maxdata=d._maxdata, lid=d._local_id,
                     storelen=len(d._io_manager._packet_store), now=self.clock.now, locks=locks, sink=sink_s,
                     ev="[" + ",".join(self.link.events) + "]", sink_kind=sink_kind)
 
@@ -368,7 +373,7 @@ def parse_reply(line):
     return out
 
 
-FIELDS = ("res", "peer", "avail", "maxdata", "lid", "storelen", "now", "locks", "sink", "ev")
+FIELDS = ("res", "peer", "avail", "maxdata", "lid", "storelen", "store", "now", "locks", "sink", "ev")
 
 
 def compare_op(impl, model):
